@@ -16,7 +16,7 @@ import Verif.Model.AcmeChallenge
     op=rev ip=x..
 
   Output (validate): `<status> err=<errT> ret=ok|ise fp=0|1 azrec=<authz status stored>:<expired> az=<authz status after UpdateStatus> tgt=<target>`
-  (optional input fields `azst=` `azexp=`: the owning authorization's stored status / expired flag before the call);
+  (optional input fields `azst=` `azexp=` `azforeign=` (the loaded authorization does not own this challenge; its own challenges are pending): the owning authorization's stored status / expired flag before the call);
   (types) `offered=<types> val=<stored value> wild=0|1`; (rev) `arpa=<name>`, `crash`, `unmodelled`,
   `mismatch`, `nohash` (the oracle table lacks a digest the model needs), `parse-error`.
 -/
@@ -72,9 +72,9 @@ def targetS : Target → String
   | .txt n => "txt:" ++ xs n
   | .tls a sni => "tls:" ++ xs a ++ ":" ++ xs sni
 
-def outcomeS (cmp : Bool) (az : AzRec) (o : Outcome) : String :=
+def outcomeS (cmp : Bool) (az : AzRec) (foreign : Bool) (o : Outcome) : String :=
   let r := daAuthzRecord az o
-  s!"{statusS o.status} err={errS o.err} ret={if o.ret = .ok then "ok" else "ise"} fp={if o.authzFp then 1 else 0} azrec={statusS r.status}:{if r.expired then 1 else 0} az={statusS (authzUpdateStatus r (o.status = .valid))} tgt={if cmp then targetS o.target else "?"}"
+  s!"{statusS o.status} err={errS o.err} ret={if o.ret = .ok then "ok" else "ise"} fp={if o.authzFp then 1 else 0} azrec={statusS r.status}:{if r.expired then 1 else 0} az={statusS (authzUpdateStatus r (ownChallengeValid foreign o))} tgt={if cmp then targetS o.target else "?"}"
 
 /-- oracle table entry -/
 def hentry? (t : String) : Option (Str × Str × Str) :=
@@ -181,6 +181,7 @@ def evalValidate (kv : List (String × String)) : Option String := do
   let w ← world? kv
   -- the owning authorization as stored before the call (default: pending, not expired)
   let az : AzRec := ⟨((lookup kv "azst").bind status?).getD .pending, ((lookup kv "azexp").bind bool?).getD false⟩
+  let foreign := ((lookup kv "azforeign").bind bool?).getD false
   let ch : Ch := { typ, status, err := perr, value, token, thumb, ip }
   -- every digest the model can ask for must be in the oracle table
   let need : List Str := match typ, thumb with
@@ -190,7 +191,7 @@ def evalValidate (kv : List (String × String)) : Option String := do
     | _, _ => []
   if status = .pending ∧ need.any (fun p => !(tab.any (·.1 = p))) then pure "nohash"
   else match validate (mkHash tab) cfg dbOk ch w with
-    | .done o => pure (outcomeS cmp az o)
+    | .done o => pure (outcomeS cmp az foreign o)
     | .crash => pure "crash"
     | .unmodelled => pure "unmodelled"
     | .mismatch => pure "mismatch"
